@@ -131,6 +131,11 @@ def _check_schedule(hist, pool, maxcache, gated, oracle, out):
         elif got != pred:
             why = 'thread %d: outcome / observations %s differ from the specification\'s prediction %s' % (
                 p, json.dumps(got)[:400], json.dumps(pred)[:400])
+        if why is None and B.has_log(call):
+            v_out, v_text, _ = oracle.get(B.unlogged(call), r['star'], r['regs'], gated)
+            if (v_out, v_text) != (iso_out, iso_text):
+                why = ('thread %d: rendering the inner call\'s error (str(e)) before re-raising it changed the outer call: '
+                       'outcome / error text differ from the same call without the str()' % p)
         if why is None and diff:
             why = 'thread %d: %s changed (structure or identity) during the call' % (p, diff)
         out['calls'] += 1
@@ -387,9 +392,9 @@ def _main(check, tier, seed):
     base = dict(MaxCalls=1, ToggleAnytime='FALSE', RegisterAnytime='FALSE', RecHist='FALSE', Mutant='""')
     # 1. model checking at the finest grain (cache steps separate)
     fine = {'quick': [dict(NProcs=2, PoolSize=9, PoolFrom=1, MaxCache=1, MaxToggles=1, MaxRegs=0, Gates='{"yield","p","t"}'),
-                      dict(NProcs=2, PoolSize=11, PoolFrom=13, MaxCache=1, MaxToggles=0, MaxRegs=0, Gates='{"yield","p","t"}')],
+                      dict(NProcs=2, PoolSize=16, PoolFrom=13, MaxCache=1, MaxToggles=0, MaxRegs=0, Gates='{"yield","p","t"}')],
             'thorough': [dict(NProcs=2, PoolSize=12, PoolFrom=1, MaxCache=1, MaxToggles=1, MaxRegs=0, Gates='{"yield","p","t"}'),
-                         dict(NProcs=2, PoolSize=20, PoolFrom=4, MaxCache=1, MaxToggles=0, MaxRegs=1, Gates='{"yield","p","t"}'),
+                         dict(NProcs=2, PoolSize=25, PoolFrom=4, MaxCache=1, MaxToggles=0, MaxRegs=1, Gates='{"yield","p","t"}'),
                          dict(NProcs=3, PoolSize=3, PoolFrom=3, MaxCache=0, MaxToggles=0, MaxRegs=0, Gates='{"yield","p","t"}'),
                          dict(NProcs=2, PoolSize=2, PoolFrom=10, MaxCache=0, MaxToggles=1, MaxRegs=0, Gates='{"yield","p","t"}')]}[tier]
     # (a separate interpreter, so that this one stays single-threaded for the forks below)
@@ -407,14 +412,18 @@ def _main(check, tier, seed):
         pool = replay_config(check, 'yield-2', dict(NProcs=2, PoolSize=9, PoolFrom=1, MaxCache=1, MaxToggles=0, MaxRegs=0, Gates='{"yield"}'))
         pool = pool + replay_config(check, 'yield-2-args-glommer', dict(NProcs=2, PoolSize=6, PoolFrom=13, MaxCache=1, MaxToggles=0,
                                                                         MaxRegs=0, Gates='{"yield"}'))
-        pool = pool + replay_config(check, 'yield-2-shared-objects', dict(NProcs=2, PoolSize=5, PoolFrom=19, MaxCache=1, MaxToggles=0,
+        pool = pool + replay_config(check, 'yield-2-shared-objects', dict(NProcs=2, PoolSize=6, PoolFrom=19, MaxCache=1, MaxToggles=0,
                                                                           MaxRegs=0, Gates='{"yield"}'))
+        pool = pool + replay_config(check, 'yield-2-ref-check', dict(NProcs=2, PoolSize=4, PoolFrom=25, MaxCache=1, MaxToggles=0,
+                                                                     MaxRegs=0, Gates='{"yield"}'))
     else:
         pool = replay_config(check, 'yield-2', dict(NProcs=2, PoolSize=9, PoolFrom=1, MaxCache=1, MaxToggles=1, MaxRegs=0, Gates='{"yield"}'))
         pool = pool + replay_config(check, 'yield-2-args-glommer', dict(NProcs=2, PoolSize=6, PoolFrom=13, MaxCache=1, MaxToggles=0,
                                                                         MaxRegs=1, Gates='{"yield"}'))
-        pool = pool + replay_config(check, 'yield-2-shared-objects', dict(NProcs=2, PoolSize=5, PoolFrom=19, MaxCache=1, MaxToggles=1,
+        pool = pool + replay_config(check, 'yield-2-shared-objects', dict(NProcs=2, PoolSize=6, PoolFrom=19, MaxCache=1, MaxToggles=1,
                                                                           MaxRegs=0, Gates='{"yield"}'))
+        pool = pool + replay_config(check, 'yield-2-ref-check', dict(NProcs=2, PoolSize=4, PoolFrom=25, MaxCache=1, MaxToggles=0,
+                                                                     MaxRegs=0, Gates='{"yield"}'))
         replay_config(check, 'yield-2-registry', dict(NProcs=2, PoolSize=2, PoolFrom=4, MaxCache=1, MaxToggles=0, MaxRegs=1, Gates='{"yield"}'))
         replay_config(check, 'yield-3', dict(NProcs=3, PoolSize=4, PoolFrom=3, MaxCache=1, MaxToggles=0, MaxRegs=0, Gates='{"yield"}'))
     replay_config(check, 'pathcache-steps', dict(NProcs=2, PoolSize=2, PoolFrom=10, MaxCache=0, MaxToggles=1, MaxRegs=0,
